@@ -567,6 +567,18 @@ def bound(ctx: Any) -> List[Ob]:
         obs.append(ob(R, lc, ln_.ast, f'every cached record of `{norm(ln_.ast.iter)[:60]}` is handed to the record processor with the time of the lookup', good_p, f'calls per trip: {sorted(map(str, per))[:2]}'))
     if n_loops < 2:
         raise AnalysisError('anchor vanished: the loops over cached records in _load_from_cache')
+    # the public look-up calls hand back the description exactly when the request succeeded, else None, with the caller's
+    # timeout and question type passed through
+    for full_api, req in (('zeroconf._core.Zeroconf.get_service_info', 'request'), ('zeroconf._core.Zeroconf.async_get_service_info', 'async_request')):
+        api = prog.func(full_api)
+        rcalls = [c for c in walk_local_ordered(api.node) if isinstance(c, ast.Call) and call_name(c) == req]
+        passed = len(rcalls) == 1 and [norm(a) for a in rcalls[0].args] == [api.params[0], api.params[3], api.params[4]]
+        holder = norm(rcalls[0].func.value) if rcalls and isinstance(rcalls[0].func, ast.Attribute) else '?'
+        for okr in (True, False):
+            oc_api, und_api = traces(ctx, api, {f'.{req}()': okr}, lambda n, e: [], loop_bound=1)
+            rets_api = {x[1] for t in oc_api for x in t if isinstance(x, tuple) and x[0] == 'ret'}
+            good_api = passed and not und_api and ((rets_api == {None}) if not okr else (len(rets_api) == 1 and None not in rets_api and all(isinstance(r_.value, ast.Name) and r_.value.id == holder for r_ in walk_local_ordered(api.node) if isinstance(r_, ast.Return) and r_.value is not None and not (isinstance(r_.value, ast.Constant) and r_.value.value is None))))
+            obs.append(ob(R, api, f'{api.name}: the request {"succeeds" if okr else "fails"}', f'returns {"the description that made the request" if okr else "None"} (timeout and question type passed through)', good_api, f'returns {sorted(map(str, rets_api))}; arguments passed through: {passed}'))
     ret = [r for r in walk_local_ordered(lc.node) if isinstance(r, ast.Return)]
     obs.append(ob(R, lc, ret[0].value if ret else 'return', 'the cache suffices iff the description is complete afterwards', len(ret) == 1 and norm(ret[0].value) == f'{lc.params[0]}._is_complete'))
     return obs
